@@ -223,7 +223,12 @@ func (g *G) Stmt(depth int, ind string) string {
 			if vs := g.visible(TArrI, true); len(vs) > 0 {
 				g.f("builtin:splice")
 				v := pick(g.r, vs).Name
-				return "splice(" + v + pick(g.r, []string{"", ", 0", ", 0, 1", ", len(" + v + ")", ", 0, 0, " + g.Expr(TInt, 1), ", len(" + v + ")/2, 1, 7, 8"}) + ")"
+				form := pick(g.r, []string{"", ", 0", ", 0, 1", ", len(" + v + ")", ", 0, 0, " + g.Expr(TInt, 1), ", len(" + v + ")/2, 1, 7, 8"})
+				if g.totalLoop() > 0 && strings.HasSuffix(form, "8") || g.totalLoop() > 0 && strings.HasPrefix(form, ", 0, 0, ") {
+					// splice works in place: no geometric growth inside loops (a loop over the array itself doubles it)
+					return "if len(" + v + ") < 48 { splice(" + v + form + ") }"
+				}
+				return "splice(" + v + form + ")"
 			}
 		}
 		g.f("exprstmt")
